@@ -326,6 +326,12 @@ def evaluate(ctx, case, kernels=True):
     if "error" in impl:
         res["disagreements"].append({"what": "implementation raised", "impl": impl, "model": "no error"})
         return res
+    if "bad_output" in impl:
+        # flag words that are not integers (or disparities that are not numbers): no documented state of a pixel
+        res["disagreements"].append({"what": "output not a (float map, integer flag map)", "impl": impl, "model": "maps"})
+        res["failures"].append({"clause": "filled_bits", "trigger": "flag_word_not_an_integer", "pixel": None,
+                                "detail": impl["bad_output"] + " dtypes " + str(impl["dtype"])})
+        return res
     # ---- correspondence: whole method, then kernel by kernel (each numba kernel against its model on the same input)
     if impl["attr"] != case["method"]:
         res["disagreements"].append({"what": "attrs[interpolated_disparity]", "impl": impl["attr"], "model": case["method"]})
